@@ -285,6 +285,83 @@ pub fn scenarios(prop: &str, thorough: bool) -> Vec<Scenario> {
                 }
             }
         }
+        "C11" => {
+            // (1) handle / restart / drop histories on one thread (plus the background runs)
+            let ops: Vec<UOp> = vec![
+                UOp::TakeHandle,
+                UOp::CloneHandle(0),
+                UOp::DropHandle(0),
+                UOp::DropHandle(1),
+                UOp::Restart(true),
+                UOp::Restart(false),
+                UOp::PushHandle(0, it(1, "a")),
+                UOp::PushHandle(1, it(1, "ab")),
+                UOp::Tick,
+                UOp::DropNucleo,
+            ];
+            let depth = if thorough { 5 } else { 4 };
+            let k = ops.len() as u64;
+            let n = crate::dom::count_strings(ops.len(), depth);
+            for hi in 0..n {
+                let mut i = hi;
+                let mut len = 0;
+                let mut p = 1u64;
+                while i >= p {
+                    i -= p;
+                    p *= k;
+                    len += 1;
+                }
+                let mut u = vec![UOp::Tick; len];
+                for pos in (0..len).rev() {
+                    u[pos] = ops[(i % k) as usize].clone();
+                    i /= k;
+                }
+                let mut id = 10;
+                for op in u.iter_mut() {
+                    if let UOp::PushHandle(_, s) = op {
+                        s.id = id;
+                        id += 1;
+                    }
+                }
+                v.push(Scenario {
+                    name: format!("C11h/{hi}"),
+                    pool_threads: 1,
+                    columns: 1,
+                    preload: vec![it(100, "a")],
+                    u,
+                    injectors: vec![],
+                    slots: 0,
+                    bound: 0,
+                    fine: true,
+                    flag_points: false,
+                });
+            }
+            // (2) an injector thread that outlives restarts and the matcher itself
+            for pool in [1usize, 2] {
+                for (vi, u) in [
+                    vec![UOp::Reparse(0, "a"), UOp::Tick, UOp::Restart(true), UOp::Extend(vec![it(20, "a"), it(21, "ab")]), UOp::Tick, UOp::DropNucleo],
+                    vec![UOp::Reparse(0, "a"), UOp::Tick, UOp::Restart(false), UOp::Extend(vec![it(20, "a"), it(21, "ab")]), UOp::Tick],
+                    vec![UOp::Tick, UOp::DropNucleo],
+                    vec![UOp::Reparse(0, "a"), UOp::Tick, UOp::Restart(true), UOp::Restart(false), UOp::Tick],
+                ]
+                .into_iter()
+                .enumerate()
+                {
+                    v.push(Scenario {
+                        name: format!("Bs/C11t/pool{pool}/v{vi}"),
+                        pool_threads: pool,
+                        columns: 1,
+                        preload: vec![it(100, "a"), it(101, "ab")],
+                        u,
+                        injectors: vec![(true, vec![IOp::Push(it(1, "a")), IOp::Push(it(2, "xa")), IOp::DropHandle])],
+                        slots: 0,
+                        bound: 0,
+                        fine: true,
+                        flag_points: false,
+                    });
+                }
+            }
+        }
         "C20" => {
             let ops: Vec<UOp> = vec![
                 UOp::TakeHandle,
@@ -348,14 +425,14 @@ pub fn scenarios(prop: &str, thorough: bool) -> Vec<Scenario> {
             ("C13", false) => 1,
             ("C13", true) => 2,
             ("C20", _) => 0,
-            ("C07", false) => {
+            ("C11", false) | ("C07", false) => {
                 if small {
                     1
                 } else {
                     0
                 }
             }
-            ("C07", true) => {
+            ("C11", true) | ("C07", true) => {
                 if small {
                     2
                 } else {
@@ -571,6 +648,12 @@ pub fn child(prop: &str, tier: &str, shard: usize, nshards: usize) -> ! {
 
 pub fn parent(prop: &str, tier: &str) -> ! {
     let mut rep = Report::new(prop, tier);
+    collect(prop, tier, &mut rep);
+    rep.finish()
+}
+
+/// Fans the scenarios of `prop` out to child processes and merges what they found into `rep`.
+pub fn collect(prop: &str, tier: &str, rep: &mut Report) {
     let thorough = rep.is_thorough();
     let n_scn = scenarios(prop, thorough).len();
     let _ = n_scn;
@@ -670,7 +753,6 @@ pub fn parent(prop: &str, tier: &str) -> ! {
         "rayon/parking_lot are trusted to implement their documented semantics; a run's internal parallelism is one logical thread plus the order of in-flight reports (owned as an environment choice when the pool has 2 threads)".into(),
         "tick is always called with timeout 0: 'the worker finished within the timeout' is the scheduling choice to run the worker first".into(),
     ];
-    rep.finish()
 }
 
 // ------------------------------------------------------------------------------------ replay
